@@ -413,6 +413,14 @@ fn single_recipes() -> Vec<Recipe> {
         v.push(Recipe { header: Some((false, n)), key: 1, layers: vec![] });
         v.push(Recipe { header: Some((true, n)), key: 1, layers: vec![] });
     }
+    // very long paths: whatever is built from them before the limit is consulted has to be
+    // taken apart again without recursion as well
+    for &n in &[12_000usize, 30_000] {
+        v.push(Recipe { header: None, key: n, layers: vec![] });
+        v.push(Recipe { header: Some((false, n)), key: 1, layers: vec![] });
+        v.push(Recipe { header: Some((true, n)), key: 1, layers: vec![] });
+        v.push(Recipe { header: None, key: 1, layers: vec![Layer::Array(n)] });
+    }
     v
 }
 
